@@ -23,12 +23,47 @@ pub struct Fail {
     pub sig: String,
     pub msg: String,
     pub case: Json,
+    /// generator-independent form of the case: (name of a `*_concrete` generator, payload
+    /// bytes). When present the replay file is written in this form, so that committed
+    /// regression inputs survive changes to the random generators.
+    pub concrete: Option<(&'static str, Vec<u8>)>,
 }
 
 impl Fail {
     pub fn new(sig: impl Into<String>, msg: impl Into<String>, case: Json) -> Fail {
-        Fail { sig: sig.into(), msg: msg.into(), case }
+        Fail { sig: sig.into(), msg: msg.into(), case, concrete: None }
     }
+    pub fn with_concrete(mut self, gen: &'static str, payload: Vec<u8>) -> Fail {
+        self.concrete = Some((gen, payload));
+        self
+    }
+}
+
+/// pack bytes into choice words: [len, b0b1b2b3, ...] (big-endian within a word)
+pub fn pack_bytes(b: &[u8]) -> Vec<u32> {
+    let mut w = vec![b.len() as u32];
+    for c in b.chunks(4) {
+        let mut x = [0u8; 4];
+        x[..c.len()].copy_from_slice(c);
+        w.push(u32::from_be_bytes(x));
+    }
+    w
+}
+
+/// inverse of `pack_bytes`, reading from a choice source
+pub fn unpack_bytes(src: &mut Src) -> Vec<u8> {
+    let n = src.word() as usize;
+    let n = n.min(1 << 20);
+    let mut out = Vec::with_capacity(n);
+    while out.len() < n {
+        let w = src.word().to_be_bytes();
+        for b in w {
+            if out.len() < n {
+                out.push(b);
+            }
+        }
+    }
+    out
 }
 
 pub type CaseResult = Result<(), Fail>;
@@ -287,7 +322,11 @@ impl Ctx {
             return;
         }
         if self.violations.len() < MAX_VIOLATIONS {
-            self.violations.push(Violation { fail, gen: gen.to_string(), words: words.to_vec() });
+            let (gen, words) = match &fail.concrete {
+                Some((g, payload)) => (g.to_string(), pack_bytes(payload)),
+                None => (gen.to_string(), words.to_vec()),
+            };
+            self.violations.push(Violation { fail, gen, words });
         }
     }
 
@@ -334,7 +373,7 @@ impl Ctx {
         let config = Config {
             cases: my as u32,
             failure_persistence: None,
-            max_shrink_iters: 3_000,
+            max_shrink_iters: 1_500,
             max_global_rejects: 1,
             verbose: 0,
             ..Config::default()
@@ -390,6 +429,28 @@ impl Ctx {
                 let (r, used) = run_gen(gen, &words, &mut obs);
                 if used < words.len() {
                     words.truncate(used.max(prefix.len()));
+                }
+                // polishing pass: zero every word that is not needed for the same failure
+                let mut r = r;
+                if let Err(f0) = &r {
+                    let sig = f0.sig.clone();
+                    let mut budget = 4000usize;
+                    for i in (prefix.len()..words.len()).rev() {
+                        if words[i] == 0 || budget == 0 {
+                            continue;
+                        }
+                        budget -= 1;
+                        let old = words[i];
+                        words[i] = 0;
+                        let mut o = Obs::new(false);
+                        match run_gen(gen, &words, &mut o).0 {
+                            Err(f) if f.sig == sig => r = Err(f),
+                            _ => words[i] = old,
+                        }
+                    }
+                    while words.len() > prefix.len() && words.last() == Some(&0) {
+                        words.pop();
+                    }
                 }
                 let fail = match r {
                     Ok(()) => Fail::new(
